@@ -162,7 +162,7 @@ ROUND5 = {
  "C04": "The same graphs are also spread over two schemas with tables 2k and 2k+1 sharing a name (RealmDiff, schema-qualified statements, catalogue keyed by schema.table).",
  "C06": "Every history step that leaves a tampered directory with a sum file is also read by one of ten other readers (migrate status / lint / diff, schema diff / apply / inspect; relative, ./relative and absolute URLs), which must refuse it with a checksum error.",
  "C07": "Injection sites include the name of the first table (it lands in the comment line that opens the file), directive-like names and words that contain the goose / dbmate pragma keywords.",
- "C08": "Delimiters include multi-byte ones; the scanning time of a run of unterminated BEGIN words must not explode with its length (22 repetitions against 10, all three driver scanners).",
+ "C08": "Delimiters include multi-byte ones; the scanning time of a run of unterminated BEGIN words must not explode with its length (runs of 12 to 22 BEGIN / BEGIN ATOMIC words against a run of 10, the default scanner and all three driver scanners).",
  "C09": "The statement text carries a per-case number so that the recorded statement checksums vary.",
  "C10": "Configurations with a file added below the last applied version and run with --exec-order non-linear (a crash inside it must be resumed).",
  "C11": "Directories are also written with Windows line endings (file directives must still be read); fixed CLI histories with a half-applied file below the last applied version (stepped over with migrate set, or left by a failing non-linear run and resumed).",
